@@ -1168,6 +1168,17 @@ func main() {
 		if !grp.LibraryAgrees {
 			c.Note("hash.HashStr is not CRC-32 IEEE on the reference collision groups (C15 checks that equality); the groups were searched with the library's own function")
 		}
+		if c.WantSample() && len(grp.Groups) > 2 {
+			var ex []map[string]interface{}
+			for _, g := range [][]string{grp.Groups[0], grp.Groups[1], grp.Groups[len(grp.Groups)-1]} {
+				q := make([]string, len(g))
+				for i, s := range g {
+					q[i] = strconv.Quote(s)
+				}
+				ex = append(ex, map[string]interface{}{"strings": q, "crc32_ieee": fmt.Sprintf("%#08x", pmap.RefHashStr(g[0])), "hash.HashStr": fmt.Sprintf("%#08x", pmap.LibHashStr(g[0]))})
+			}
+			c.Sample(map[string]interface{}{"equal_hash_string_groups_examples": ex})
+		}
 		for _, d := range pmap.MixedKernel() {
 			c.Note(fmt.Sprintf("IntKeyMap: keys k and k^%#x have the same full hash (difference cancelled by the bit mix, found by elimination on the restated mix)", uint32(d)))
 		}
